@@ -144,7 +144,10 @@ def cold_preemption(rep, quick, rng):
                 st['b'] = ('does-not-return',)
             else:
                 st['serialised'] = True
+        if st.get('serialised'):
+            serialised[0] += 1
         return ra, st['b'], st['n']
+    serialised = [0]
     for a, b in COLD_PAIRS[:(2 if quick else len(COLD_PAIRS))]:
         for x, y in ((a, b), (b, a)):
             _, _, n = parse_with_preemption(x, y, -1)
@@ -154,6 +157,9 @@ def cold_preemption(rep, quick, rng):
                 # densely, the middle sampled
                 points = points[:25] + sorted(rng.sample(points[25:-25], 15)) + points[-25:]
             for k in points:
+                if serialised[0] >= 3:
+                    rep.extra['cold_preemption'] = 'the engine keeps a second parse waiting until the first has finished: no preemption possible'
+                    return ran
                 ra, rb, _ = parse_with_preemption(x, y, k)
                 ran += 1
                 rep.evaluations += 2
